@@ -151,6 +151,9 @@ def sort_intersections(r_a, rotate):
         # if phi > pi/2 + rotate and phi < 3*pi/2 + rotate:
         # sign = -1
         vals[i] = dist_inter * sin(ref_ang + rotate)
+        if inter[0] < 0:
+            # atan() returned the angle of the opposite direction: the value above is minus the position along the row
+            vals[i] = -vals[i]
     zipped = sorted(zip(vals, r_a))
     r_a = [row for _, row in zipped]
     return r_a
